@@ -196,3 +196,24 @@ Definition serve_events (x : serve_exit) : list cev := [TagConn; ConnBegin true;
    does, and nothing prevents calling it twice) *)
 Definition client_conn_events (closes : nat) : list cev :=
   [TagConn; ConnBegin false] ++ repeat (ConnEnd false) closes.
+
+(* ------------------------------------------------------------------ *)
+(* the tag clause: which context every event is delivered with.
+   All start helpers run ONE loop over the installed handlers (util.go
+   StatsStartServerRPC l.91-117; client.go newStream l.217-227):
+       ctx = sh.TagRPC(ctx, ..); sh.HandleRPC(ctx, Begin) [; sh.HandleRPC(ctx, InHeader) on the server]
+   so handler i (0-based) of n gets these first events with the context to which
+   the TagRPC of handlers 0..i has been applied (depth i+1), and every later
+   event with the final context (depth n), which derives from it. A handler finds
+   the value ITS TagRPC stored in every context of depth > i. *)
+Definition loop_prefix (server : bool) : nat := if server then 3 else 2.
+
+Fixpoint depths_from (pos prefix n i : nat) (evs : list sev) : list (sev * nat) :=
+  match evs with
+  | [] => []
+  | e :: rest => (e, if Nat.ltb pos prefix then S i else n) :: depths_from (S pos) prefix n i rest
+  end.
+
+(* the events of handler i of n for one RPC, each with the depth of its context *)
+Definition tag_depths (server : bool) (n i : nat) (evs : list sev) : list (sev * nat) :=
+  depths_from 0 (loop_prefix server) n i evs.
